@@ -625,6 +625,12 @@ struct DomSim {
   std::string key() const {
     if (dead) return "dead";
     std::string k = ref::show(model) + "|";
+    if (kTrack) {
+      // outstanding allocations are part of the state (a history that leaked must not be merged with one that did not)
+      size_t lbytes = 0;
+      for (auto& kv : ta::ledger().live) lbytes += kv.second;
+      k += "led" + std::to_string(ta::ledger().live.size()) + "/" + std::to_string(lbytes) + "|";
+    }
     hidden(*doc, k);
     return k;
   }
